@@ -49,7 +49,7 @@ Definition gen_step (y : sys) (delivered : list N) (st : istep) : step * sys * l
   | IDeliver idxs =>
       let log := delta_cmds y (y_tgt_idx y + 1) idxs in
       let '(t', r) := fsm_apply_batch (y_tgt_cfg y) (y_tgt y) log in
-      (SDeliver idxs (obs_of t' r) (dg_mig (y_tgt y)) (dg_mig t'),
+      (SDeliver idxs [] (obs_of t' r) (dg_mig (y_tgt y)) (dg_mig t') (applied_indexes t'),
        Sys (y_src y) (y_src_cfg y) (y_src_idx y) t' (y_tgt_cfg y) (y_tgt_idx y + N.of_nat (length idxs)) (y_fwd y) (y_log y),
        match r with BRes _ => delivered ++ idxs | BErr _ => delivered end)
   | ISwitch =>
